@@ -297,6 +297,58 @@ func genC03(g *Gen) {
 			}
 		}
 	})
+	// (2b) scale: long argument lists, deep nesting, long chains, long templates; rare code points; keywords in odd letters
+	vs := anyL(c03assignments[1])
+	rep := func(s string, k int) string { return strings.Repeat(s, k) }
+	for _, k := range []int{8, 9, 16, 17, 31, 32, 33, 34, 40, 63, 64, 65, 100, 127, 128, 129, 255, 256, 257, 1000, 1025} {
+		if k > g.Pick(260, 2000) {
+			continue
+		}
+		args := "1" + rep(", 2", k-1)
+		for _, fn := range []string{"Array", "Sum", "Max", "Min", "Concat", "Choose", "If", "Abs", "Contains", "Date", "TimeSpan", "Nope"} {
+			run("long argument lists", Ev{"api": "expression", "input": cps(fn + "(" + args + ")"), "vars": vs})
+		}
+		run("long argument lists", Ev{"api": "expression", "input": cps("Sum('a'" + rep(", 'b'", k-1) + ")"), "vars": vs})
+		run("long argument lists", Ev{"api": "expression", "input": cps("Choose(" + fmt.Sprint(k-1) + ", " + args + ")"), "vars": vs})
+		for _, sh := range [][3]string{{"(", "1", ")"}, {"(", "a", ""}, {"", "1", ")"}, {"a[", "1", "]"}, {"a[", "1", ""}, {"-", "a", ""}, {"NOT ", "a", ""}, {"f(", "1", ")"}, {"f(", "", ""}, {"Abs(", "-3", ")"},
+			{"(1 + ", "a", ")"}, {"1 + (", "a", ""}, {"[", "", ""}, {"'", "", ""}, {"\"", "", ""}, {"/*", "", ""}, {"1 +", " 1", ""}, {"a AND ", "b", ""}, {"a.", "b", ""}, {"1e", "1", ""}, {"1.", "5", ""}} {
+			run("deep nesting and long chains", Ev{"api": "expression", "input": cps(rep(sh[0], k) + sh[1] + rep(sh[2], k)), "vars": vs})
+		}
+		run("deep nesting and long chains", Ev{"api": "expression", "input": cps("1" + rep(" + a * 2", k)), "vars": vs})
+		run("deep nesting and long chains", Ev{"api": "expression", "input": cps("a" + rep(" + a", k)), "vars": anyL(c03assignments[len(c03assignments)-1])})
+		run("deep nesting and long chains", Ev{"api": "expression", "input": cps(rep("v", k) + " + '" + rep("q", k) + "' + " + rep("9", k)), "vars": vs})
+		for _, sh := range [][3]string{{"{{#a}}", "x", "{{/a}}"}, {"{{#a}}", "", ""}, {"{{^a}}", "", ""}, {"{{#a}}", "x", ""}, {"", "x", "{{/a}}"}, {"{{^a}}", "y", "{{/a}}"}, {"{{#a}}{{^b}}", "", "{{/b}}{{/a}}"},
+			{"{{a}}", "", ""}, {"{{{a}}}", "", ""}, {"{{!c}}", "", ""}, {"{", "", "}"}, {"{{", "", ""}, {"}}", "", ""}, {"{{#a", "", ""}, {"x", "", ""}, {"{{ a }} ", "", ""}, {"{{#a}}{{/a}}", "", ""}, {"{{a b}}", "", ""}} {
+			run("deep and long templates", Ev{"api": "template", "input": cps(rep(sh[0], k) + sh[1] + rep(sh[2], k))})
+		}
+		for _, kind := range tokKinds {
+			run("long tokenizer inputs", Ev{"api": "tokenize", "kind2": kind, "opts": toAnyList(optList([]int{0, 127, 7, 64}[k%4])), "input": cpsR(longInput(g, kind, k))})
+		}
+	}
+	for n := 1; n <= g.Pick(140, 300); n++ { // every count: a bound may sit anywhere
+		run("deep and long templates", Ev{"api": "template", "input": cps(rep("{{#a}}", n))})
+		run("deep and long templates", Ev{"api": "template", "input": cps(rep("{{#a}}", n) + rep("{{/a}}", n))})
+		run("deep nesting and long chains", Ev{"api": "expression", "input": cps(rep("(", n) + "1"), "vars": vs})
+		run("long argument lists", Ev{"api": "expression", "input": cps("Array(" + "1" + rep(",1", n) + ")"), "vars": vs})
+	}
+	for _, in := range rareInputs() {
+		run("rare code points", Ev{"api": "expression", "input": cpsR(in), "vars": vs})
+		run("rare code points", Ev{"api": "template", "input": cpsR(in)})
+		for _, kind := range tokKinds {
+			run("rare code points", Ev{"api": "tokenize", "kind2": kind, "opts": toAnyList(optList(127)), "input": cpsR(in)})
+		}
+	}
+	for _, kwd := range c13keywords {
+		low := strings.ToLower(kwd)
+		for i, ch := range low {
+			for _, alt := range map[rune][]rune{'s': {0x17f}, 'i': {0x131, 0x130}, 'k': {0x212a}, 'a': {0x212b, 0xe5}, 'e': {0xe9}, 'n': {0xf1}, 'o': {0xf8}}[ch] {
+				w := low[:i] + string(alt) + low[i+1:]
+				for _, ctx := range []string{"a %s b", "a %s null", "%s a", "a not %s b", "a is %s", "%s", "1 %s (1,2)", "%s(1)"} {
+					run("keywords spelled with letters that case-map onto ASCII", Ev{"api": "expression", "input": cps(fmt.Sprintf(ctx, w)), "vars": vs})
+				}
+			}
+		}
+	}
 	// (3) mutated / random inputs
 	n := g.Pick(4000, 100000)
 	for i := 0; i < n; i++ {
